@@ -20,6 +20,7 @@ impl Config {
 }
 
 /// what a block job may assume when it runs (proved by the dispatcher at queue time)
+pub use super::libfs::kend;
 pub open spec fn job_pre(h: CopyHandle, bytes: u64, off: u64) -> bool {
     h.infd.inode() != h.outfd.inode() && off + bytes <= i64::MAX
 }
@@ -36,4 +37,34 @@ pub fn pool_execute_job(pool: &ThreadPool, harc: Arc<CopyHandle>, stat_tx: Arc<d
 /// the bytes of block [off, off+bytes) that exist in a source of length `len`
 pub open spec fn clip(off: int, bytes: int, len: int) -> int {
     if off >= len { 0 } else if off + bytes > len { len - off } else { bytes }
+}
+
+/// byte `b` of the destination `out` is inside some job queued at or after trace position `from`
+pub open spec fn job_covers(t: Seq<Event>, from: int, out: Inode, b: int) -> bool {
+    exists|k: int| from <= k < t.len() && is_job_on(#[trigger] t[k], out, b)
+}
+pub open spec fn is_job_on(e: Event, out: Inode, b: int) -> bool {
+    e is Job && e->Job_1 == out && e->Job_2 <= b < e->Job_2 + e->Job_3
+}
+/// every job queued at or after `from` lies inside [lo, hi)
+pub open spec fn jobs_within(t: Seq<Event>, from: int, lo: int, hi: int) -> bool {
+    forall|k: int| from <= k < t.len() && (#[trigger] t[k]) is Job ==> lo <= t[k]->Job_2 && t[k]->Job_2 + t[k]->Job_3 <= hi && t[k]->Job_3 > 0
+}
+
+pub open spec fn in_kext(k: Seq<KExt>, b: int) -> bool { exists|i: int| 0 <= i < k.len() && (#[trigger] k[i]).logical <= b < kend(k[i]) }
+
+pub proof fn lemma_job_covers_ext(t0: Seq<Event>, t1: Seq<Event>, from: int, out: Inode, b: int)
+    requires from >= 0, tr_ext(t0, t1), job_covers(t0, from, out, b)
+    ensures job_covers(t1, from, out, b)
+{
+    let k = choose|k: int| from <= k < t0.len() && is_job_on(#[trigger] t0[k], out, b);
+    assert(t1[k] == t0[k]);
+    assert(is_job_on(t1[k], out, b));
+}
+pub proof fn lemma_job_covers_from(t: Seq<Event>, from0: int, from1: int, out: Inode, b: int)
+    requires from0 <= from1, job_covers(t, from1, out, b)
+    ensures job_covers(t, from0, out, b)
+{
+    let k = choose|k: int| from1 <= k < t.len() && is_job_on(#[trigger] t[k], out, b);
+    assert(is_job_on(t[k], out, b));
 }
